@@ -36,6 +36,8 @@ import (
 	"testing"
 
 	"github.com/titpetric/vuego"
+	"golang.org/x/net/html"
+	"golang.org/x/net/html/atom"
 	"pgregory.net/rapid"
 
 	"verif/internal/ev"
@@ -69,6 +71,11 @@ const prop = "C16"
 //	else  : <p data-m="uM" v-if="…">u</p> followed by the marked element with v-else
 //	elseif: the same with v-else-if="t" on the marked element and a trailing <p v-else>
 //	tpl   : <template v-once><Tag data-m="oM">…</Tag></template> - the directive sits on a wrapper
+//	tplif / tplelse: the wrapper is itself a chain member (<template v-once v-if>, <template v-else v-once>)
+//
+// An inc or slot item with O set carries v-once on the include tag / <slot> element itself (M names
+// it): its whole expansion - the component instance, the slot's content or fallback - is emitted at the
+// first instantiation only. It may also be a chain member (Ch "if" / "else").
 //
 //	pslot: <slot name="ph">Kids</slot> (Nm: "pf") written in a LAYOUT file: filled with the content of
 //	      the page's <template #ph> / <template v-slot:pf> (Page.Ph / Page.Pf), else Kids (fallback)
@@ -89,6 +96,7 @@ type Item struct {
 	// src="/assets/js/component.js"> in different places are still distinct elements; only the
 	// data-m text tells them apart.
 	At   int    `json:"at,omitempty"`
+	O    bool   `json:"o,omitempty"` // inc, slot: v-once on the include tag / <slot> element itself
 	N    int    `json:"n,omitempty"`
 	Cond bool   `json:"cond,omitempty"`
 	Eq   int    `json:"eq,omitempty"`
@@ -173,7 +181,10 @@ type Case struct {
 }
 
 // entry points: file (load, file, vue), fragment (frag), string (string, byte, reader).
-var entries = []string{"load", "file", "vue", "frag", "string", "byte", "reader"}
+// entry points: file (load, file, vue), fragment (frag), string (string, byte, reader) and caller-parsed
+// nodes (nodes: Loader.LoadFragment of the page file, parsed once per case and handed to every
+// RenderNodes call of the history; xnodes: golang.org/x/net/html ParseFragment of the page body).
+var entries = []string{"load", "file", "vue", "frag", "string", "byte", "reader", "nodes", "xnodes"}
 
 func layoutAware(e string) bool { return e == "load" || e == "file" }
 func stringy(e string) bool     { return e == "string" || e == "byte" || e == "reader" }
@@ -243,6 +254,27 @@ func condSrc(it Item) string {
 	return "f"
 }
 
+// onceAttrs / onceHead: the directive (and chain membership) of an include tag or <slot> with O set.
+func onceAttrs(it Item) string {
+	if !it.O {
+		return ""
+	}
+	switch it.Ch {
+	case "if":
+		return fmt.Sprintf(` v-once v-if="%s"`, condSrc(it))
+	case "else":
+		return " v-else v-once"
+	}
+	return " v-once"
+}
+
+func onceHead(it Item) string {
+	if it.O && it.Ch == "else" {
+		return fmt.Sprintf("<p data-m=\"u%d\" v-if=\"%s\">u</p>\n", it.M, condSrc(it))
+	}
+	return ""
+}
+
 func src(items []Item, sb *strings.Builder) {
 	for _, it := range items {
 		switch it.K {
@@ -255,7 +287,7 @@ func src(items []Item, sb *strings.Builder) {
 			if it.Self {
 				attrs += fmt.Sprintf(` v-for="x in n%d"`, it.N)
 			}
-			if it.At > 0 && it.Ch != "tpl" {
+			if it.At > 0 && !strings.HasPrefix(it.Ch, "tpl") {
 				if it.M%2 == 0 {
 					attrs = idAttrs[it.At%len(idAttrs)] + " " + attrs
 				} else {
@@ -270,6 +302,12 @@ func src(items []Item, sb *strings.Builder) {
 				}
 			}
 			switch it.Ch {
+			case "tplif":
+				fmt.Fprintf(sb, "<template %s v-if=\"%s\">", sp, condSrc(it))
+				attrs = fmt.Sprintf(`data-m="o%d"`, it.M)
+			case "tplelse":
+				fmt.Fprintf(sb, "<p data-m=\"u%d\" v-if=\"%s\">u</p>\n<template v-else %s>", it.M, condSrc(it), sp)
+				attrs = fmt.Sprintf(`data-m="o%d"`, it.M)
 			case "if":
 				attrs += fmt.Sprintf(` v-if="%s"`, condSrc(it))
 			case "else":
@@ -293,7 +331,7 @@ func src(items []Item, sb *strings.Builder) {
 			switch it.Ch {
 			case "elseif":
 				fmt.Fprintf(sb, "<p data-m=\"z%d\" v-else>z</p>\n", it.M)
-			case "tpl":
+			case "tpl", "tplif", "tplelse":
 				sb.WriteString("</template>\n")
 			}
 		case "for":
@@ -309,7 +347,7 @@ func src(items []Item, sb *strings.Builder) {
 			src(it.Kids, sb)
 			sb.WriteString("</div>\n")
 		case "inc":
-			fmt.Fprintf(sb, "<template include=\"components/%s.vuego\">", it.Comp)
+			fmt.Fprintf(sb, "%s<template include=\"components/%s.vuego\"%s>", onceHead(it), it.Comp, onceAttrs(it))
 			if len(it.Kids) > 0 {
 				sb.WriteString("\n")
 				src(it.Kids, sb)
@@ -331,9 +369,9 @@ func src(items []Item, sb *strings.Builder) {
 			case it.K == "pslot":
 				sb.WriteString("<slot name=\"ph\">")
 			case it.Nm:
-				sb.WriteString("<slot name=\"s1\">")
+				fmt.Fprintf(sb, "%s<slot name=\"s1\"%s>", onceHead(it), onceAttrs(it))
 			default:
-				sb.WriteString("<slot>")
+				fmt.Fprintf(sb, "%s<slot%s>", onceHead(it), onceAttrs(it))
 			}
 			if len(it.Kids) > 0 {
 				sb.WriteString("\n")
@@ -420,6 +458,26 @@ func validate(c Case) error {
 	seenM := map[int]bool{}
 	inContent := 0 // > 0 while inside supplied slot content or fallback content
 	inLayout := false
+	// onceOn validates v-once on an include tag / <slot>
+	onceOn := func(it Item, inLoop bool) error {
+		if !it.O {
+			if it.Ch != "" {
+				return fmt.Errorf("chain member without v-once")
+			}
+			return nil
+		}
+		if seenM[it.M] || it.M <= 0 {
+			return fmt.Errorf("marker %d used twice", it.M)
+		}
+		seenM[it.M] = true
+		if it.Ch != "" && it.Ch != "if" && it.Ch != "else" {
+			return fmt.Errorf("bad ch %q", it.Ch)
+		}
+		if it.Eq < 0 || it.Eq > 3 || (it.Eq > 0 && (!inLoop || inContent > 0)) {
+			return fmt.Errorf("bad condition")
+		}
+		return nil
+	}
 	var walk func(items []Item, file string, comp int, inLoop bool, head bool) error
 	walk = func(items []Item, file string, comp int, inLoop bool, head bool) error {
 		for _, it := range items {
@@ -444,7 +502,7 @@ func validate(c Case) error {
 				if it.Self && (it.N < 0 || it.N > 3) {
 					return fmt.Errorf("bad n")
 				}
-				if it.At < 0 || it.At >= len(idAttrs) || (it.At > 0 && it.Ch == "tpl") {
+				if it.At < 0 || it.At >= len(idAttrs) || (it.At > 0 && strings.HasPrefix(it.Ch, "tpl")) {
 					return fmt.Errorf("o%d: bad attribute %d", it.M, it.At)
 				}
 				if it.Pre && (it.Self || it.Ch != "" || isBox(it.Tag)) {
@@ -452,7 +510,7 @@ func validate(c Case) error {
 				}
 				switch it.Ch {
 				case "":
-				case "if", "else", "elseif":
+				case "if", "else", "elseif", "tplif", "tplelse":
 					if it.Self || head || (it.Eq > 0 && (!inLoop || inContent > 0)) || it.Eq > 3 || it.Eq < 0 {
 						return fmt.Errorf("o%d: bad chain member", it.M)
 					}
@@ -493,6 +551,9 @@ func validate(c Case) error {
 				if _, ok := c.Comps[base]; !ok || j < 0 || j <= comp || head {
 					return fmt.Errorf("bad include of %q in %s", it.Comp, file)
 				}
+				if err := onceOn(it, inLoop); err != nil {
+					return err
+				}
 				if len(it.Named) > 0 && len(c.Layouts) > 0 {
 					return fmt.Errorf("named slot content in a site with layouts")
 				}
@@ -516,6 +577,9 @@ func validate(c Case) error {
 			case "slot":
 				if comp < 0 || inContent > 0 || head {
 					return fmt.Errorf("bad slot in %s", file)
+				}
+				if err := onceOn(it, inLoop); err != nil {
+					return err
 				}
 				inContent++
 				err := walk(it.Kids, file, comp, false, false)
@@ -653,6 +717,32 @@ func (l *link) cond(it Item) bool {
 	return it.Cond
 }
 
+// onceOn decides whether an include tag / <slot> that may carry v-once (and be a chain member) is
+// expanded at this instantiation.
+func (l *link) onceOn(it Item) bool {
+	if !it.O {
+		return true
+	}
+	switch it.Ch {
+	case "if":
+		if !l.cond(it) {
+			return false
+		}
+	case "else":
+		if l.cond(it) {
+			fmt.Fprintf(&l.sb, "u%d()", it.M)
+			return false
+		}
+	}
+	key := fmt.Sprintf("%s#%d", l.file, it.M)
+	l.reached[it.M]++
+	if l.seen[key] {
+		return false
+	}
+	l.seen[key] = true
+	return true
+}
+
 func (l *link) walk(items []Item) {
 	for _, it := range items {
 		switch it.K {
@@ -662,15 +752,16 @@ func (l *link) walk(items []Item) {
 				inst = it.N // every loop iteration instantiates the marked element itself
 			}
 			key := fmt.Sprintf("%s#%d", l.file, it.M)
-			if it.Ch == "if" || it.Ch == "else" || it.Ch == "elseif" {
+			if it.Ch == "if" || it.Ch == "else" || it.Ch == "elseif" || it.Ch == "tplif" || it.Ch == "tplelse" {
 				cond := l.cond(it)
-				if it.Ch == "if" && !cond {
+				own := it.Ch == "if" || it.Ch == "tplif"
+				if own && !cond {
 					if !l.seen[key] {
 						l.passedFalse[key] = true
 					}
 					continue // not instantiated here
 				}
-				if it.Ch != "if" && cond {
+				if !own && cond {
 					fmt.Fprintf(&l.sb, "u%d()", it.M) // the chain's v-if member is chosen instead
 					continue
 				}
@@ -716,6 +807,9 @@ func (l *link) walk(items []Item) {
 			l.walk(it.Kids)
 			l.sb.WriteString(")")
 		case "inc":
+			if !l.onceOn(it) {
+				continue
+			}
 			base, twin := twinOf(l.c, it.Comp)
 			fmt.Fprintf(&l.sb, "c%s()", base) // a twin's body, head marker included, is X's text
 			old, oldFile := l.scope, l.file
@@ -745,6 +839,9 @@ func (l *link) walk(items []Item) {
 				l.walk(it.Kids)
 			}
 		case "slot":
+			if !l.onceOn(it) {
+				continue
+			}
 			var content []Item
 			if l.scope != nil {
 				content = l.scope.def
@@ -834,7 +931,7 @@ func countIDs(outline string) map[string]int {
 // ---------------------------------------------------------------------------------------------
 // check
 
-func renderStep(tpl vuego.Template, vue *vuego.Vue, c *Case, s Step) (string, error) {
+func renderStep(tpl vuego.Template, vue *vuego.Vue, c *Case, s Step, fsys *memfs.FS, parsed map[int][]*html.Node) (string, error) {
 	var buf bytes.Buffer
 	ctx := context.Background()
 	name := pageName(s.P)
@@ -861,6 +958,24 @@ func renderStep(tpl vuego.Template, vue *vuego.Vue, c *Case, s Step) (string, er
 		err = recv().Fill(data(s)).RenderByte(ctx, &buf, []byte(pageBody(s.P, c.Pages[s.P])))
 	case "reader":
 		err = recv().Fill(data(s)).RenderReader(ctx, &buf, strings.NewReader(pageBody(s.P, c.Pages[s.P])))
+	case "nodes":
+		nodes, ok := parsed[s.P]
+		if !ok {
+			nodes, err = vuego.NewLoader(fsys).LoadFragment(name)
+			if err != nil {
+				return "", fmt.Errorf("parse: %w", err)
+			}
+			parsed[s.P] = nodes
+		}
+		err = vue.RenderNodes(&buf, nodes, data(s))
+	case "xnodes":
+		body := &html.Node{Type: html.ElementNode, Data: "body", DataAtom: atom.Body}
+		var nodes []*html.Node
+		nodes, err = html.ParseFragment(strings.NewReader(pageBody(s.P, c.Pages[s.P])), body)
+		if err != nil {
+			return "", fmt.Errorf("parse: %w", err)
+		}
+		err = vue.RenderNodes(&buf, nodes, data(s))
 	default:
 		err = fmt.Errorf("unknown entry %q", s.Entry)
 	}
@@ -901,6 +1016,10 @@ func where(c *Case, m int) string {
 			s = fmt.Sprintf("<%s %s v-else-if=\"t\"> after <p v-if=\"%s\"> in %s", it.Tag, sp, condSrc(*it), file)
 		case "tpl":
 			s = fmt.Sprintf("<%s> inside <template %s> in %s", it.Tag, sp, file)
+		case "tplif":
+			s = fmt.Sprintf("<%s> inside <template %s v-if=\"%s\"> in %s", it.Tag, sp, condSrc(*it), file)
+		case "tplelse":
+			s = fmt.Sprintf("<%s> inside <template v-else %s> after <p v-if=\"%s\"> in %s", it.Tag, sp, condSrc(*it), file)
 		}
 		return s
 	}
@@ -938,9 +1057,10 @@ func check(c Case) error {
 	// one engine for the whole history: the property is about renders that follow one another
 	tpl := vuego.NewFS(fsys)
 	vue := vuego.NewVue(fsys)
+	parsed := map[int][]*html.Node{}
 	for i, s := range c.Steps {
 		exp := expect(&c, s)
-		out, err := renderStep(tpl, vue, &c, s)
+		out, err := renderStep(tpl, vue, &c, s, fsys, parsed)
 		at := fmt.Sprintf("step %d (page %s via %s)", i, pageName(s.P), s.Entry)
 		if s.On != "" {
 			at = fmt.Sprintf("step %d (body of page %s via %s on a template loaded from %s)", i, pageName(s.P), s.Entry, s.On)
@@ -996,7 +1116,7 @@ func check(c Case) error {
 		}
 		// 2. position: emitted where it is first reached (outline of all markers)
 		if o := hx.Outline(forest); o != exp.outline {
-			return fmt.Errorf("%s: counts of marked elements agree but the marker outline differs\nwant %s\ngot  %s\noutput:\n%s", at, exp.outline, o, clip(out))
+			return fmt.Errorf("%s: counts of marked elements agree but the marker outline differs (position of an emitted element, or expansion of an include tag / <slot> that carries v-once itself)\nwant %s\ngot  %s\noutput:\n%s", at, exp.outline, o, clip(out))
 		}
 		// the internal bookkeeping attributes are not part of the page
 		if strings.Contains(strings.ToLower(out), "v-once") {
@@ -1072,6 +1192,9 @@ func classify(c Case) (bool, []string) {
 					}
 				case "tpl":
 					set["once=on-template-wrapper"] = true
+				case "tplif", "tplelse":
+					set["once=on-template-wrapper"] = true
+					set["once=on-template-wrapper that is a chain member:"+it.Ch] = true
 				}
 				walk(it.Kids, kind, inLoop, true, underIf)
 			case "for":
@@ -1085,6 +1208,12 @@ func classify(c Case) (bool, []string) {
 			case "div":
 				walk(it.Kids, kind, inLoop, inOnce, underIf)
 			case "inc":
+				if it.O {
+					set["once=on-include-tag"] = true
+					if it.Ch != "" {
+						set["once=on-include-tag that is a chain member:"+it.Ch] = true
+					}
+				}
 				if kind == "component" {
 					set["nested-include"] = true
 				}
@@ -1118,6 +1247,12 @@ func classify(c Case) (bool, []string) {
 				}
 				walk(it.Kids, kind+"/slot-fallback", false, inOnce, underIf)
 			case "slot":
+				if it.O {
+					set["once=on-slot-element"] = true
+					if it.Ch != "" {
+						set["once=on-slot-element that is a chain member:"+it.Ch] = true
+					}
+				}
 				set["component-has-slot"] = true
 				if inLoop {
 					set["slot-in-loop"] = true
@@ -1318,14 +1453,14 @@ func (u *uni) slotCh(name string, tags []string, ch string, cond bool, eq int) [
 	for i := range its {
 		its[i].Ch, its[i].Cond, its[i].Eq = ch, cond, eq
 		its[i].Pre = false
-		if ch == "tpl" {
+		if strings.HasPrefix(ch, "tpl") {
 			its[i].At = 0
 		}
 	}
 	return its
 }
 
-var pageSlots = []string{"s0", "s1", "s2", "s3", "s4", "s5", "q0", "q1", "a0", "a1", "a2", "b0", "c0", "t0", "t1", "f0", "f1", "e0", "e1", "i0", "i1", "k0"}
+var pageSlots = []string{"s0", "s1", "s2", "s3", "s4", "s5", "q0", "q1", "a0", "a1", "a2", "b0", "c0", "t0", "t1", "f0", "f1", "e0", "e1", "i0", "i1", "k0", "k1", "k2"}
 
 // slots in the page's #ph / v-slot:pf templates (sites with layouts)
 var handedSlots = []string{"ph0", "ph1", "pf0"}
@@ -1383,7 +1518,11 @@ func universe(fill []string, p uparams) Case {
 	P = append(P, Item{K: "div", M: u.id(), Kids: u.slot("s4", all)})
 	// chain members: v-else after <p v-if="x == 1"> and own v-if="x == 2" in a loop of 3; template wrapper
 	P = append(P, Item{K: "for", M: u.id(), N: 3, Kids: append(u.slotCh("e0", all, "else", false, 1), u.slotCh("i0", all, "if", false, 2)...)})
-	P = append(P, Item{K: "for", M: u.id(), N: p.nA, Kids: u.slotCh("k0", all, "tpl", false, 0)})
+	P = append(P, Item{K: "for", M: u.id(), N: p.nA, Kids: append(u.slotCh("k0", all, "tpl", false, 0), u.slotCh("k1", all, "tplif", true, 0)...)})
+	// v-once on include tags that are chain members: <template include v-else v-once> in a loop,
+	// <template include v-once v-if="x == 2"> in a loop of 3
+	P = append(P, Item{K: "for", M: u.id(), N: p.nB, Kids: []Item{{K: "inc", Comp: "C", O: true, M: u.id(), Ch: "else"}}})
+	P = append(P, Item{K: "for", M: u.id(), N: 3, Kids: []Item{{K: "inc", Comp: "B", O: true, M: u.id(), Ch: "if", Eq: 2}}})
 	// component D has a default slot and a named slot, both with fallback content; the page includes
 	// it in a loop with default content, then with named content (sites without layouts), then twice bare
 	P = append(P, Item{K: "for", M: u.id(), N: p.nB, Kids: []Item{{K: "inc", Comp: "D",
@@ -1405,12 +1544,15 @@ func universe(fill []string, p uparams) Case {
 	A = append(A, Item{K: "for", M: u.id(), N: p.nA, Kids: u.slot("a1", all)}, inc("C"))
 	A = append(A, u.slot("a2", all)...)
 	A = append(A, u.slotCh("e1", all, "elseif", false, 0)...)
+	A = append(A, u.slotCh("k2", all, "tplelse", false, 0)...)
 	var B []Item
 	B = append(B, u.slot("b0", all)...)
 	B = append(B, u.slotCh("i1", all, "if", true, 0)...)
 	B = append(B, inc("C"))
 	C := u.slot("c0", all)
 	D := []Item{{K: "slot", Kids: u.slot("f0", all)}, {K: "for", M: u.id(), N: 2, Kids: []Item{{K: "slot", Nm: true, Kids: u.slot("f1", all)}}}}
+	// a <slot v-once v-if> in a loop: filled (content or this fallback) at its first instantiation only
+	D = append(D, Item{K: "for", M: u.id(), N: 2, Kids: []Item{{K: "slot", O: true, M: u.id(), Ch: "if", Cond: true, Kids: []Item{{K: "div", M: u.id()}}}}})
 	c := Case{
 		Pages:   []Page{{Items: P}, {Items: Q}},
 		Comps:   map[string][]Item{"A": A, "B": B, "C": C, "D": D},
@@ -1502,6 +1644,20 @@ type gen struct {
 
 func (g *gen) id() int { g.next++; return g.next }
 
+// onceOn puts v-once on an include tag / <slot> and possibly makes it a chain member.
+func (g *gen) onceOn(it *Item, l string, inLoop bool) {
+	it.O, it.M = true, g.id()
+	it.Ch = rapid.SampledFrom([]string{"", "if", "if", "else", "else"}).Draw(g.t, l+"och")
+	if it.Ch == "" {
+		return
+	}
+	if inLoop && g.inContent == 0 && rapid.Bool().Draw(g.t, l+"oeq?") {
+		it.Eq = rapid.IntRange(1, 3).Draw(g.t, l+"oeq")
+	} else {
+		it.Cond = (rapid.IntRange(0, 3).Draw(g.t, l+"ocond") > 0) == (it.Ch == "if")
+	}
+}
+
 // items draws a body. comp = index of the component being generated (-1: page/layout).
 func (g *gen) items(label string, comp, depth int, inLoop bool, max int) []Item {
 	n := rapid.IntRange(0, max).Draw(g.t, label+"#")
@@ -1553,14 +1709,14 @@ func (g *gen) items(label string, comp, depth int, inLoop bool, max int) []Item 
 				it.Tag = rapid.SampledFrom(leafTags).Draw(g.t, l+"tag")
 			}
 			if !it.Self {
-				switch ch := rapid.IntRange(0, 11).Draw(g.t, l+"ch"); ch {
-				case 0, 1, 2:
-					it.Ch = []string{"if", "else", "elseif"}[ch]
+				switch ch := rapid.IntRange(0, 13).Draw(g.t, l+"ch"); ch {
+				case 0, 1, 2, 4, 5:
+					it.Ch = []string{"if", "else", "elseif", "", "tplif", "tplelse"}[ch]
 					if inLoop && g.inContent == 0 && rapid.Bool().Draw(g.t, l+"cheq?") {
 						it.Eq = rapid.IntRange(1, 3).Draw(g.t, l+"cheq")
 					} else {
 						// mostly the condition that selects the marked member
-						it.Cond = (rapid.IntRange(0, 3).Draw(g.t, l+"chcond") > 0) == (ch == 0)
+						it.Cond = (rapid.IntRange(0, 3).Draw(g.t, l+"chcond") > 0) == (ch == 0 || ch == 4)
 					}
 				case 3:
 					it.Ch = "tpl"
@@ -1569,7 +1725,7 @@ func (g *gen) items(label string, comp, depth int, inLoop bool, max int) []Item 
 			if !it.Self && it.Ch == "" && !isBox(it.Tag) && rapid.IntRange(0, 4).Draw(g.t, l+"pre") == 0 {
 				it.Pre = true
 			}
-			if g.at > 0 && it.Ch != "tpl" && rapid.IntRange(0, 3).Draw(g.t, l+"at") > 0 {
+			if g.at > 0 && !strings.HasPrefix(it.Ch, "tpl") && rapid.IntRange(0, 3).Draw(g.t, l+"at") > 0 {
 				it.At = g.at
 			}
 			out = append(out, it)
@@ -1592,6 +1748,9 @@ func (g *gen) items(label string, comp, depth int, inLoop bool, max int) []Item 
 			out = append(out, it)
 		case "inc":
 			it := Item{K: "inc", Comp: rapid.SampledFrom(allowed).Draw(g.t, l+"comp")}
+			if rapid.IntRange(0, 4).Draw(g.t, l+"o?") == 0 {
+				g.onceOn(&it, l, inLoop)
+			}
 			if depth < 3 {
 				g.inContent++
 				if rapid.IntRange(0, 2).Draw(g.t, l+"content?") == 0 {
@@ -1613,6 +1772,9 @@ func (g *gen) items(label string, comp, depth int, inLoop bool, max int) []Item 
 			out = append(out, it)
 		case "slot":
 			it := Item{K: "slot", Nm: rapid.IntRange(0, 2).Draw(g.t, l+"nm") == 0}
+			if rapid.IntRange(0, 3).Draw(g.t, l+"o?") == 0 {
+				g.onceOn(&it, l, inLoop)
+			}
 			if depth < 3 {
 				g.inContent++
 				it.Kids = g.items(l+"f", comp, depth+1, false, 2)
@@ -1788,17 +1950,21 @@ func TestProp(t *testing.T) {
 enum:
 	for _, p := range params {
 		for j, fill := range subsets(universeSlots(p), maxFill) {
-			// one marked element: all 7 entry histories; two: 2 of them (thorough 3); three: 2 - rotating, so that
+			// one marked element: all 9 entry histories; two: 2 of them (thorough 3); three: 2 - rotating, so that
 			// every entry meets every kind of filling
-			ks := []int{0, 1, 2, 3, 4, 5, 6}
+			ne := len(entries)
+			ks := make([]int, ne)
+			for i := range ks {
+				ks[i] = i
+			}
 			switch len(fill) {
 			case 2:
-				ks = []int{j % 7, (j + 3) % 7}
+				ks = []int{j % ne, (j + 4) % ne}
 				if run.Thorough() {
-					ks = append(ks, (j+5)%7)
+					ks = append(ks, (j+7)%ne)
 				}
 			case 3:
-				ks = []int{j % 7, (j + 4) % 7}
+				ks = []int{j % ne, (j + 5) % ne}
 			}
 			for _, k := range ks {
 				n++
@@ -1816,7 +1982,7 @@ enum:
 		}
 	}
 	if ok {
-		rec.Exhaustive(fmt.Sprintf("universe site: every choice of 1..%d of its slots x %d parameter sets x 7/2(thorough 3)/2 entry histories for 1/2/3 filled slots (%d cases)", maxFill, len(params), n))
+		rec.Exhaustive(fmt.Sprintf("universe site: every choice of 1..%d of its slots x %d parameter sets x 9/2(thorough 3)/2 entry histories for 1/2/3 filled slots (%d cases)", maxFill, len(params), n))
 	}
 
 	run.Rapid(t, rec, "random", genCase(), classify, check)
